@@ -209,6 +209,9 @@ func binop(op token.Token, tx, ty types.Type, x, y value) value {
 func unop(fr *frame, instr *ssa.UnOp, x value) value {
 	switch instr.Op {
 	case token.ARROW:
+		if E.traceCalls {
+			E.traceLog = append(E.traceLog, traceEvent{fn: "op:plain-chan-recv in " + fr.fn.String()})
+		}
 		ch, _ := x.(*Chan)
 		v, ok := E.chanRecv(fr.g, ch)
 		if !ok {
